@@ -60,3 +60,162 @@ def oversize_members(limit=1000):
     finally:
         ae._config = old
     return None
+
+
+# ------------------------------------------------------------------ 7z archives written by hand (no writer in the environment) --
+def _num7(n):
+    return bytes([n]) if n < 0x80 else b"\xff" + n.to_bytes(8, "little")
+
+
+SZ_COPY, SZ_LZMA, SZ_LZMA2, SZ_BCJ = b"\x00", b"\x03\x01\x01", b"\x21", b"\x03\x03\x01\x03"
+
+
+def sevenzip(folders):
+    """A 7z archive with one member per folder.  folders: [(name, packed bytes, [(coder id, properties | None), ...], declared size)];
+    the declared size is written for every coder of the folder and is the member's size (it need not be what the packed stream expands to)."""
+    import struct
+    import zlib
+    n = len(folders)
+    packed = b"".join(p for _, p, _, _ in folders)
+    pack_info = b"\x06" + _num7(0) + _num7(n) + b"\x09" + b"".join(_num7(len(p)) for _, p, _, _ in folders) + b"\x00"
+    fdefs, sizes = b"", b""
+    for _, _, coders, declared in folders:
+        f = _num7(len(coders))
+        for cid, props in coders:
+            f += bytes([len(cid) | (0x20 if props is not None else 0)]) + cid
+            if props is not None:
+                f += _num7(len(props)) + props
+        for i in range(len(coders) - 1):
+            f += _num7(i) + _num7(i + 1)
+        fdefs += f
+        sizes += b"".join(_num7(d) for d in (declared if isinstance(declared, (list, tuple)) else [declared] * len(coders)))
+    unpack_info = b"\x07\x0b" + _num7(n) + b"\x00" + fdefs + b"\x0c" + sizes + b"\x00"
+    streams_info = b"\x04" + pack_info + unpack_info + b"\x08\x00" + b"\x00"
+    names = b"\x00" + b"".join(name.encode("utf-16-le") + b"\x00\x00" for name, _, _, _ in folders)
+    files_info = b"\x05" + _num7(n) + b"\x11" + _num7(len(names)) + names + b"\x00"
+    header = b"\x01" + streams_info + files_info + b"\x00"
+    start = struct.pack("<QQI", len(packed), len(header), zlib.crc32(header))
+    return b"7z\xbc\xaf\x27\x1c" + b"\x00\x04" + struct.pack("<I", zlib.crc32(start)) + start + packed + header
+
+
+def sevenzip_copy(members):
+    return sevenzip([(name, data, [(SZ_COPY, None)], len(data)) for name, data in members])
+
+
+SAME_PATH_SPELLINGS = (("a.txt", "a.txt"), ("a.txt", "./a.txt"), ("a.txt", "d/../a.txt"), ("d/a.txt", "d//a.txt"), ("d/a.txt", "d/./a.txt"), ("a.txt", "a.txt/"))
+
+
+def sevenzip_members(limit=1000):
+    """7z members are written to a temp dir and read back by path: a member above the per-member limit never produces a result, also when
+    another entry resolves to its path (same name, `./`, `d/../`, doubled separators), in either order and next to filtered entries."""
+    from sharepoint2text.parsing.extractors import archive_extractor as ae
+    small = b"small text\n"
+    big = ("B" * (limit * 3) + "\n").encode()
+    try:
+        ok = list(ae.read_archive(io.BytesIO(sevenzip_copy([("b.txt", small)])), "ok.7z"))
+        if len(ok) != 1 or "small text" not in ok[0].get_full_text():
+            return None           # hand-written archives are not read by this reader: nothing is claimed
+    except Exception:  # noqa
+        return None
+    layouts = [("plain", [("a.txt", small), ("big.txt", big), ("z.txt", small)])]
+    for first, second in SAME_PATH_SPELLINGS:
+        layouts.append((f"{first!r} small then {second!r} oversize", [(first, small), (second, big)]))
+        layouts.append((f"{second!r} small then {first!r} oversize", [(second, small), (first, big)]))
+        layouts.append((f"{first!r} oversize then {second!r} small", [(first, big), (second, small)]))
+        layouts.append((f"{first!r} small, unsupported x.bin, {second!r} oversize", [(first, small), ("x.bin", small), (second, big)]))
+    old = ae._config
+    ae._config = dataclasses.replace(old, max_memory_size=limit)
+    try:
+        for label, members in layouts:
+            try:
+                res = list(ae.read_archive(io.BytesIO(sevenzip_copy(members)), "t.7z"))
+            except Exception:  # noqa
+                continue
+            over = [t for t in (r.get_full_text() for r in res) if len(t) > limit]
+            if over:
+                return {"reproduced": True, "target": "archive_extractor.py::_extract_from_7z_optimized",
+                        "inputs": {"archive": "7z (COPY coder, one folder per member)", "layout": label, "members": [(n, len(d)) for n, d in members], "max_memory_size": limit},
+                        "expected": f"no result from a member larger than {limit} bytes",
+                        "observed": f"a result with {len(over[0])} characters of text (the oversize member's bytes were read back from the temp dir)"}
+            if label == "plain" and len(res) != 2:
+                return {"reproduced": True, "target": "archive_extractor.py::_extract_from_7z_optimized",
+                        "inputs": {"archive": "7z (COPY coder)", "layout": label, "members": [(n, len(d)) for n, d in members], "max_memory_size": limit},
+                        "expected": "2 results (the members within the limit)", "observed": f"{len(res)} results"}
+    finally:
+        ae._config = old
+    return None
+
+
+def _lzma_streams(chunks):
+    """-> {coder id: (properties, raw stream)} for the same data as LZMA (7z method 030101) and LZMA2 (21)."""
+    import lzma
+    c1 = lzma.LZMACompressor(format=lzma.FORMAT_ALONE, filters=[{"id": lzma.FILTER_LZMA1, "preset": 1, "dict_size": 1 << 20}])
+    c2 = lzma.LZMACompressor(format=lzma.FORMAT_RAW, filters=[{"id": lzma.FILTER_LZMA2, "preset": 1, "dict_size": 1 << 20}])
+    o1, o2 = [], []
+    for ch in chunks():
+        o1.append(c1.compress(ch))
+        o2.append(c2.compress(ch))
+    a = b"".join(o1) + c1.flush()
+    b = b"".join(o2) + c2.flush()
+    return {SZ_LZMA: (a[:5], a[13:]), SZ_LZMA2: (bytes([16]), b)}
+
+
+def sevenzip_declared_sizes(tail=48 * 1024 * 1024, declared=128, skip=()):
+    """A 7z folder is not decompressed beyond the size the archive declares for it: member declared as 128 bytes whose packed LZMA / LZMA2
+    stream really expands to 128 bytes of text + `tail` zero bytes, alone and in filter chains (BCJ + .., COPY + ..).  Measured with
+    tracemalloc against the archive size; a refusal is fine.  `skip`: chain labels recorded as known findings.  -> result dict | None."""
+    import tracemalloc
+    from sharepoint2text.parsing.extractors import archive_extractor as ae
+    text = (b"declared part of the member. " * 8)[:declared]
+
+    def chunks():
+        yield text
+        zero = bytes(1 << 20)
+        for _ in range(tail // len(zero)):
+            yield zero
+    bomb = _lzma_streams(chunks)
+    honest = _lzma_streams(lambda: iter([text]))
+    chains = []
+    for cid, cname in ((SZ_LZMA, "LZMA"), (SZ_LZMA2, "LZMA2")):
+        chains.append((cname, [cid]))
+        chains.append((f"BCJ+{cname}", [SZ_BCJ, cid]))
+        chains.append((f"COPY+{cname}", [SZ_COPY, cid]))
+        chains.append((f"BCJ+COPY+{cname}", [SZ_BCJ, SZ_COPY, cid]))
+    # in a chain, also with the outer coders declaring the full expansion: only the decoder's own (last) size is the small one
+    chains = [(l, c, None) for (l, c) in chains] + [(l, c, "outer coders declare the full expansion") for (l, c) in chains if len(c) > 1]
+    readable = {}
+    for label, chain, sizing in chains:
+        if label in skip:
+            continue
+        last = chain[-1]
+
+        def arch(streams, sizing=sizing):
+            props, raw = streams[last]
+            sizes = declared if sizing is None else [declared + tail] * (len(chain) - 1) + [declared]
+            return sevenzip([("a.txt", raw, [(c, props if c == last else None) for c in chain], sizes)])
+        if label not in readable:
+            try:
+                ok = list(ae.read_archive(io.BytesIO(arch(honest, None)), "h.7z"))
+                readable[label] = len(ok) == 1 and "declared part" in ok[0].get_full_text()
+            except Exception:  # noqa
+                readable[label] = False
+        if not readable[label]:
+            continue              # this chain is not read by the reader: nothing to measure
+        data = arch(bomb)
+        tracemalloc.start()
+        tracemalloc.reset_peak()
+        base = tracemalloc.get_traced_memory()[0]
+        try:
+            res = list(ae.read_archive(io.BytesIO(data), "x.7z"))
+            err = None
+        except Exception as e:  # noqa
+            res, err = [], e
+        peak = tracemalloc.get_traced_memory()[1] - base
+        tracemalloc.stop()
+        if peak > max(64 * len(data), 16 * 1024 * 1024):
+            return {"reproduced": True, "target": "util/sevenzip.py::SevenZipReader._decompress_folder", "chain": label,
+                    "inputs": {"archive": f"7z, one folder with coders {label}{' (' + sizing + ')' if sizing else ''}, member declared as {declared} bytes, packed stream of {len(data)} bytes "
+                                          f"that expands to {declared + tail} bytes", "archive_bytes": len(data)},
+                    "expected": "decompression stops at the declared size (peak additional memory within a fixed multiple of the archive size); a refusal is fine",
+                    "observed": f"peak additional memory {peak} bytes = {peak // len(data)}x the archive ({len(res)} results, error={type(err).__name__ if err else None})"}
+    return None
